@@ -837,6 +837,55 @@ func (e *Exec) stepGo(fr *frame, st *State, in *ssa.Go) {
 				e.oblige(fr, st, "pre:go:"+callee.Name(), "precondition of spawned "+funcKey(callee)+": "+c.Src, in.Pos(), v.T)
 			}
 			goEnv = &SpecEnv{ex: e, st: st, old: st, vars: env.vars, addrs: env.addrs, fn: callee, spec: spec, callerFr: fr}
+			// the spawner's own `callreq` and `ghostset ... after` clauses for the
+			// spawned function apply at the go statement as at a call
+			if fr == e.topFrame && fr.spec != nil {
+				bindArgs := func(cenv *SpecEnv) {
+					for k, v := range fr.entryParams {
+						if _, isLocal := fr.locals[k]; !isLocal {
+							cenv.vars[k] = v
+						}
+					}
+					for i, a := range in.Call.Args {
+						if i < len(names) {
+							v := e.tval(fr, st, a)
+							v.GoT = callee.Params[i].Type()
+							cenv.vars["arg_"+names[i]] = v
+						}
+					}
+				}
+				keys := append([]string{callee.Name()}, e.siteKeys(fr, callee.Name())...)
+				for _, k := range keys {
+					for _, c := range fr.spec.CallReqs[k] {
+						cenv := e.specEnv(fr, st, nil)
+						bindArgs(cenv)
+						v := cenv.eval(c.E)
+						e.oblige(fr, st, "lock:call:"+callee.Name(), "go "+callee.Name()+" requires "+c.Src, in.Pos(), v.T)
+					}
+				}
+				for _, gs := range fr.spec.GhostSets {
+					if gs.OnStore != "" {
+						continue
+					}
+					hit := false
+					for _, k := range keys {
+						hit = hit || k == gs.Callee
+					}
+					if !hit {
+						continue
+					}
+					g, ok := e.ss.GhostVars[gs.Var]
+					if !ok {
+						e.specErrors = append(e.specErrors, "ghostset: unknown ghost variable "+gs.Var)
+						continue
+					}
+					genv := e.specEnv(fr, st, nil)
+					bindArgs(genv)
+					v := genv.eval(gs.E)
+					genv.ghostVar(g)
+					e.setHeap(st, "G$"+gs.Var, v.T)
+				}
+			}
 			e.trust("preconditions of goroutine " + funcKey(callee) + " are checked at the go statement and assumed stable until it runs")
 		} else {
 			e.note("%s: go statement spawns %s which has no contract", e.w.pos(in.Pos()), funcKey(callee))
